@@ -75,7 +75,10 @@ def topcof_post(c):
     out = [('shannon', semr(S, u_) == If(A[i_], semr(S, r1), semr(S, r0))),
            ('refs', And(isref(S, r0), isref(S, r1))),
            ('deeper', And(lv(S, r0) > i_, lv(S, r1) > i_)),
-           ('not-above', And(lv(S, r0) >= lv(S, u_), lv(S, r1) >= lv(S, u_)))]
+           ('not-above', And(lv(S, r0) >= lv(S, u_), lv(S, r1) >= lv(S, u_))),
+           ('structure', If(And(lv(S, u_) == i_, absz(u_) != 1),
+                            And(r0 == If(u_ > 0, S.lo[absz(u_)], -S.lo[absz(u_)]), r1 == If(u_ > 0, S.hi[absz(u_)], -S.hi[absz(u_)])),
+                            And(r0 == u_, r1 == u_)))]
     for fam, arr in (('sem2', A2), ('sem3', A3)):
         if c.uses is None or fam in c.uses:
             out.append((f'shannon[{fam}]', semr(S, u_, fam) == If(arr[i_], semr(S, r1, fam), semr(S, r0, fam))))
@@ -86,7 +89,7 @@ def topcof_post(c):
 
 reg(Contract('dd.bdd.BDD._top_cofactor', [('self', 'mgr'), ('u', 'int'), ('i', 'int')],
              pre=lambda c: wf(c.S, c.uses) + [('ref', isref(c.S, c.a.u)),
-                                              ('level', And(0 <= c.a.i, c.a.i < c.S.nvars, c.a.i <= lv(c.S, c.a.u)))],
+                                              ('level', And(c.a.i < c.S.nvars, c.a.i <= lv(c.S, c.a.u)))],
              post=topcof_post, ret='pair', uses=None))
 
 reg(Contract('dd.bdd.BDD._next_free_int', [('self', 'mgr'), ('start', 'int')],
@@ -577,24 +580,30 @@ QREC = reg(Contract('dd.bdd.BDD._quantify', [('self', 'mgr'), ('u', 'int'), ('j'
 # at call sites the unchanged list/set parameters need not be re-proved: they are the caller's own parameters
 QREC.call_skip = {'sorted', 'elements', 'onto', 'n', 'Q-is-qvars'}
 
-# name -> level translation (assumed, bounded-checked): sets and dicts of names
+# name -> level translation: sets and dicts of names. An undeclared name makes it raise ValueError or KeyError, depending on which
+# element `next(iter(d))` happens to return first (nothing is modified before)
+def all_declared(S, d):
+    return ForAll([n_], Implies(d.has[n_], S.vin[n_]), patterns=[d.has[n_]])
+
+
+M2L_RAISES = {'ValueError': Raise(when=lambda c: Not(all_declared(c.S0, c.a.d))), 'KeyError': Raise(when=lambda c: Not(all_declared(c.S0, c.a.d)))}
 reg(Contract('dd.bdd.BDD._map_to_level:set', [('self', 'mgr'), ('d', 'set:name')],
              pre=lambda c: wf(c.S, c.uses),
              post=lambda c: [('levels-of-names', And(
                  ForAll([n_], Implies(c.a.d.has[n_], And(c.S0.vin[n_], c.r.has[c.S0.v2l[n_]])), patterns=[c.a.d.has[n_]]),
                  ForAll([l_], Implies(c.r.has[l_], And(c.S0.lin[l_], c.a.d.has[c.S0.l2v[l_]])), patterns=[c.r.has[l_]])))],
-             ret='set:int', uses=ORD, assumed=True,
-             raises={'ValueError': Raise(when=lambda c: Not(ForAll([n_], Implies(c.a.d.has[n_], c.S0.vin[n_]), patterns=[c.a.d.has[n_]])))},
-             note='assumed (bounded-checked by C03/C04 drivers): translates declared names to their levels, ValueError otherwise'))
+             ret='set:int', uses=ORD, raises=M2L_RAISES))
 reg(Contract('dd.bdd.BDD._map_to_level:dict', [('self', 'mgr'), ('d', 'dict:name->bool')],
              pre=lambda c: wf(c.S, c.uses),
              post=lambda c: [('levels-of-names', And(
                  ForAll([n_], Implies(c.a.d.has[n_], And(c.S0.vin[n_], c.r.has[c.S0.v2l[n_]])), patterns=[c.a.d.has[n_]]),
                  ForAll([l_], Implies(c.r.has[l_], And(c.S0.lin[l_], c.a.d.has[c.S0.l2v[l_]], c.r.val[l_] == c.a.d.val[c.S0.l2v[l_]])),
                         patterns=[c.r.has[l_]])))],
-             ret='dict:int->bool', uses=ORD, assumed=True,
-             raises={'ValueError': Raise(when=lambda c: Not(ForAll([n_], Implies(c.a.d.has[n_], c.S0.vin[n_]), patterns=[c.a.d.has[n_]])))},
-             note='assumed (bounded-checked): translates declared names to levels keeping bool(value)'))
+             ret='dict:int->bool', uses=ORD, raises=M2L_RAISES))
+reg(Contract('dd.bdd.BDD._assert_keys_are_levels:set', [('self', 'mgr'), ('kv', 'set:name')], pre=lambda c: [], post=lambda c: [('never-returns', BoolVal(False))],
+             ret='none', raises={'ValueError': Raise(when=lambda c: BoolVal(True), must=True)}, assumed=True,
+             note='assumed: a non-empty collection whose first key is a name (never a level) is rejected with ValueError (error-message helper with a closure)'))
+REG['dd.bdd.BDD._assert_keys_are_levels:dict'] = REG['dd.bdd.BDD._assert_keys_are_levels:set']
 
 
 # ---- _cofactor ---------------------------------------------------------------------------------------------------
@@ -1017,6 +1026,7 @@ COFACTOR_BODY = reg(Contract('dd.bdd.BDD.cofactor!body', [('self', 'mgr'), ('u',
                              pre=cofactor_body_pre, post=cofactor_body_post, modifies=M.NODE_MOD, ret='int',
                              uses={'rc', 'sem2', 'agree:sem2', 'order'},
                              raises={'ValueError': Raise(when=lambda c: BoolVal(True)), '_NeedsReordering': NR(nr_post()),
+                                     'KeyError': Raise(when=lambda c: Not(all_declared(c.S0, c.a.values))),
                                      'RuntimeError': Raise(when=lambda c: BoolVal(True))}))
 COFACTOR_DEC = reg(decorate(COFACTOR_BODY, 'dd.bdd.BDD.cofactor'))
 
@@ -1171,6 +1181,98 @@ for _flag, _ret in ((False, 'set:name'), (True, 'set:int')):
     reg(Contract('dd.bdd.BDD.support!proved:' + ('levels' if _flag else 'names'), [('self', 'mgr'), ('u', 'int'), ('as_levels', 'bool')],
                  pre=lambda c, _f=_flag: wf(c.S, c.uses) + [('ref', isref(c.S, c.a.u)), ('as_levels', c.a.as_levels == BoolVal(_f))],
                  post=support_post, ret=_ret, uses={'hl', 'order'}))
+
+
+# ---------------------------------------------------------------------------------------------------------------
+# relational product (C13): `_image` against the ghost functions IMG / FIMG on *pairs* of references.
+# For the fixed arbitrary assignment A, with B = A o umap (term A2), IMG(u, v) is "some choice of values for the levels in Q
+# makes u (under B) and v (read through vmap) both true", FIMG the universal dual. Their recursion equations over the frozen
+# entry heap E (lemma L-IMG, lean/BddTheory.lean: they hold for the semantic definitions when vmap keeps the order of v's
+# levels, which is what the documented adjacency precondition is for) are ASSUMED here as the definition of the ghost.
+EI = State('Eimg')
+IMG = M.z3.Function('IMG', I, I, B) if hasattr(M, 'z3') else None
+from z3 import Function as _Fn  # noqa: E402
+IMG = _Fn('IMG', I, I, B)
+FIMG = _Fn('FIMG', I, I, B)
+UNF = _Fn('UNFOLD', I, I, B)     # trigger: the recursion equations are instantiated for the pair of the call only
+u2_, v2_ = Int('u!img'), Int('v!img')
+
+
+def _mapped(mp, z):
+    from vlib.vc.symex import DictV
+    return If(mp.has[z], mp.val[z], z) if isinstance(mp, DictV) else z
+
+
+def img_terms(E, a, u, v):
+    iu, jv = E.lvl[absz(u)], E.lvl[absz(v)]
+    iv = _mapped(a.vmap, jv)
+    z = min2(iu, iv)
+    cof = lambda x, hit: (If(hit, If(x > 0, E.lo[absz(x)], -E.lo[absz(x)]), x), If(hit, If(x > 0, E.hi[absz(x)], -E.hi[absz(x)]), x))  # noqa
+    u0, u1 = cof(u, iu == z)
+    v0, v1 = cof(v, iv == z)
+    return z, u0, u1, v0, v1
+
+
+def img_axioms(E, a):
+    z, u0, u1, v0, v1 = img_terms(E, a, u2_, v2_)
+    live = And(isref(E, u2_), isref(E, v2_), u2_ != -1, v2_ != -1, Not(And(u2_ == 1, v2_ == 1)))
+    return [('IMG-base', ForAll([u2_], And(Not(IMG(-1, u2_)), Not(IMG(u2_, -1)), Not(FIMG(-1, u2_)), Not(FIMG(u2_, -1))),
+                                patterns=[IMG(-1, u2_), IMG(u2_, -1), FIMG(-1, u2_), FIMG(u2_, -1)])),
+            ('IMG-one', And(IMG(1, 1), FIMG(1, 1))),
+            ('IMG-rec', ForAll([u2_, v2_], Implies(live, IMG(u2_, v2_) == If(Q[z], Or(IMG(u0, v0), IMG(u1, v1)),
+                                                                             If(A2[z], IMG(u1, v1), IMG(u0, v0)))),
+                               patterns=[UNF(u2_, v2_)])),
+            ('FIMG-rec', ForAll([u2_, v2_], Implies(live, FIMG(u2_, v2_) == If(Q[z], And(FIMG(u0, v0), FIMG(u1, v1)),
+                                                                               If(A2[z], FIMG(u1, v1), FIMG(u0, v0)))),
+                                patterns=[UNF(u2_, v2_)])),
+            ('unfold-everywhere', ForAll([u2_, v2_], UNF(u2_, v2_), patterns=[UNF(u2_, v2_)])),
+            ('A2-is-A-after-umap', ForAll([l_], A2[l_] == A[_mapped(a.umap, l_)], patterns=[A2[l_]]))]
+
+
+def img_val(a, u, v):
+    return If(a.forall, FIMG(u, v), IMG(u, v))
+
+
+def img_memo_valid(E, S, a, cache):
+    t = M._t
+    return ForAll([t], Implies(cache.has[t], And(isref(E, Fork.l(t)), isref(E, Fork.lo(t)), Fork.hi(t) == 0, isref(S, cache.val[t]),
+                                                 semr(S, cache.val[t]) == img_val(a, Fork.l(t), Fork.lo(t)))), patterns=[cache.has[t]])
+
+
+def img_pre(c):
+    S, a = c.S, c.a
+    return wf(S, c.uses) + [('extends-entry-heap', Ext(EI, S, c.uses)), ('refs', And(isref(EI, a.u), isref(EI, a.v))),
+                            ('requests-off', S.lastlen < 0),
+                            ('Q-is-qvars', ForAll([l_], Q[l_] == a.qvars.has[l_], patterns=[Q[l_]])),
+                            ('entry-heap-closed', And(EI.dom[1], EI.lo[1] == 0, EI.hi[1] == 0, ForAll([x_], Implies(And(EI.dom[x_], x_ > 1), And(
+                                EI.hi[x_] > 0, EI.dom[EI.hi[x_]], EI.lo[x_] != 0, EI.dom[absz(EI.lo[x_])])), patterns=[EI.dom[x_]]))),
+                            ('umap-targets-are-levels', BoolVal(True) if not hasattr(a.umap, 'has') else ForAll(
+                                [l_], Implies(And(a.umap.has[l_], 0 <= l_, l_ < S.nvars), And(0 <= a.umap.val[l_], a.umap.val[l_] < S.nvars)),
+                                patterns=[a.umap.has[l_]])),
+                            ('vmap-maps-levels-to-levels', BoolVal(True) if not hasattr(a.vmap, 'has') else ForAll(
+                                [l_], Implies(a.vmap.has[l_], And(0 <= l_, l_ < S.nvars, 0 <= a.vmap.val[l_], a.vmap.val[l_] < S.nvars)),
+                                patterns=[a.vmap.has[l_]])),
+                            ('memo', img_memo_valid(EI, S, a, a.cache)), ('unfold', UNF(a.u, a.v))] + img_axioms(EI, a)
+
+
+def img_post(c):
+    S0, S1, a, r = c.S0, c.S1, c.a, c.r
+    return wf(S1, c.uses) + [('Ext', Ext(S0, S1, c.uses)), ('extends-entry-heap', Ext(EI, S1, c.uses)),
+                             ('relational-product', And(isref(S1, r), semr(S1, r) == img_val(a, a.u, a.v))),
+                             ('memo', img_memo_valid(EI, S1, a, c.muts['cache'][1])), flags(S0, S1),
+                             ('order-kept', M.keep(S0, S1, list(M.ORDER_FIELDS)))]
+
+
+IMAGE_PARAMS = [('u', 'int'), ('v', 'int'), ('umap', 'any'), ('vmap', 'any'), ('qvars', 'set:int'), ('bdd', 'mgr'), ('forall', 'bool'),
+                ('cache', 'dict:fork->int')]
+IMGREC = reg(Contract('dd.bdd._image', IMAGE_PARAMS, pre=img_pre, post=img_post, modifies=REC_MOD, ret='int', mgr='bdd',
+                      uses={'cache', 'rc'}, mutates=['cache'], raises=REC_RAISES))
+reg(Contract('dd.bdd._image_root', IMAGE_PARAMS, pre=lambda c: [(n, g) for n, g in img_pre(c) if n not in ('requests-off', 'unfold')],
+             post=img_post, modifies=REC_MOD + ['lastlen'], ret='int', mgr='bdd', uses={'cache', 'rc'}, mutates=['cache'],
+             raises={'RuntimeError': Raise(when=lambda c: BoolVal(True))},
+             note='requests are switched off around the recursion and restored in `finally`: the signal cannot escape'))
+IMGREC.case_split = lambda c: [c.a.forall, EI.lvl[absz(c.a.u)] <= _mapped(c.a.vmap, EI.lvl[absz(c.a.v)])]
+IMGREC.call_skip = {'Q-is-qvars', 'umap-targets-are-levels', 'vmap-maps-levels-to-levels', 'entry-heap-closed', 'IMG-base', 'IMG-one', 'IMG-rec', 'FIMG-rec', 'A2-is-A-after-umap', 'unfold-everywhere'}
 
 
 # ---------------------------------------------------------------------------------------------------------------
